@@ -1093,7 +1093,9 @@ func (c *FuncCtx) loopExits(n ast.Node, outs []outcome) []outcome {
 		for i, cl := range cls {
 			v := c.evalSpecAt(o.st, cl.Expr, n.End(), c.ghostEnv())
 			c.oblige(o.st, "assert", fmt.Sprintf("loop%d.exit%d", ord, i+1), n.Pos(), v.S, cl.Tags, "loop exit "+cl.Text)
-			o.st.assume(v.forAssume())
+			if !cl.CheckOnly {
+				o.st.assume(v.forAssume())
+			}
 		}
 	}
 	return outs
